@@ -8,14 +8,17 @@ CONSTANT MaxN, MaxPos, Mode, PrintMod
 C1 == <<99, 49>>  C2 == <<99, 50>>
 TEx == <<101>>  TGn == <<103>>
 MCNum == {<<<<49, 48>>, 10000>>, <<<<57>>, 9000>>}
-Pats == {"same", "lastSeq", "midSeq", "lastStrand", "firstStrand", "allMinus", "lastType", "sharedAttrs"}
+Pats == {"same", "lastSeq", "midSeq", "lastStrand", "firstStrand", "allMinus", "lastType", "sharedAttrs", "emptyVal", "midDot"}
 \* "sharedAttrs": ID-less neighbours carrying IDENTICAL attributes whose values are neither sorted nor free of repeats (Parent=t2,t1; n=9,10,9)
 SharedAttrs == <<<<T_Parent, <<<<116, 50>>, <<116, 49>>>>>>, <<<<110>>, <<<<57>>, <<49, 48>>, <<57>>>>>>>>
+\* "emptyVal": one neighbour carries an EMPTY value among the values of a key (Note=third,) - the union keeps it
+EmptyValAttrs(i) == <<<<T_ID, <<<<102, 48 + i>>>>>>, <<<<78, 111, 116, 101>>, IF i % 2 = 1 THEN <<<<116>>, <<>>>> ELSE <<<<117>>>>>>>>
 Mk(i, s, e, n, pat) ==
   [id |-> <<102, 48 + i>>, seqid |-> IF (pat = "lastSeq" /\ i = n /\ n > 1) \/ (pat = "midSeq" /\ i = 2) THEN C2 ELSE C1, source |-> <<115>>,
    ftype |-> IF pat = "lastType" /\ i = n /\ n > 1 THEN TGn ELSE TEx, start |-> s, end |-> e, score |-> DOTT,
-   strand |-> IF pat = "allMinus" \/ (pat = "lastStrand" /\ i = n /\ n > 1) \/ (pat = "firstStrand" /\ i = 1 /\ n > 1) THEN MINUSS ELSE PLUS, frame |-> DOTT,
-   attrs |-> IF pat = "sharedAttrs" THEN SharedAttrs
+   strand |-> IF pat = "midDot" /\ i = 2 THEN DOTT                                   \* an unstranded feature among stranded ones: '.' is a strand value like any other
+              ELSE IF pat = "allMinus" \/ (pat = "lastStrand" /\ i = n /\ n > 1) \/ (pat = "firstStrand" /\ i = 1 /\ n > 1) THEN MINUSS ELSE PLUS, frame |-> DOTT,
+   attrs |-> IF pat = "sharedAttrs" THEN SharedAttrs ELSE IF pat = "emptyVal" THEN EmptyValAttrs(i)
              ELSE <<<<T_ID, <<<<102, 48 + i>>>>>>, <<<<110>>, <<IF i = 2 THEN <<49, 48>> ELSE <<57>>>>>>, <<T_Parent, <<<<116>>>>>>,
                     <<<<78>>, <<IF i % 2 = 1 THEN <<90, 98>> ELSE <<97, 98>>>>>>>>,        \* N=Zb / N=ab: sorted means code-point order ("Zb" before "ab")
    extra |-> <<>>]
